@@ -77,6 +77,20 @@ def gen_case(rng):
                       'sig': rng.choice(['TERM', 'KILL', 'HUP', 'SEGV']),
                       'dur': rng.choice([0, 0, 0.05, 0.2]),
                       'at': rng.choice([0.0, 0.05, 0.2, 0.5])})
+    # cancel requests which are pending in some component's list when the
+    # whole bulk it pulls fails there: a quarter of the histories are built
+    # for that coincidence (one failing work routine, several requests at
+    # closely spaced times, so that one of them meets the tasks right there)
+    if rng.random() < 0.25:
+        n = max(n, 5)
+        while len(tasks) < n:
+            tasks.append({'uid': 't.%02d' % len(tasks), 'fate': 'ok',
+                          'code': 1, 'sig': 'TERM', 'dur': 0, 'at': 0.0})
+        tasks[0]['fate'] = rng.choice(BULKS)
+        for t, at in zip(tasks[1:], [0.0, 0.004, 0.01, 0.02, 0.04, 0.08]):
+            if rng.random() < 0.8:
+                t['fate'], t['at'] = 'cancel_early', at
+        rng.shuffle(tasks)
     return {'seed': rng.randint(0, 2 ** 30), 'tasks': tasks,
             'submit': rng.choice(['bulk', 'bulk', 'split']),
             'pilots': rng.choice([1, 1, 2, 3])}
@@ -328,6 +342,26 @@ def judge(case, res, mp, by_uid, seen, ok1, tasks2, ok2):
             viol('failed-without-exception', '%s (%s)' % (uid, fate))
         if st == rps.FAILED and fate == 'exit' and ec != t['code']:
             viol('exit-code-lost', '%s: %s != %s' % (uid, ec, t['code']))
+
+    # what the components published: at most one final state per task on the
+    # state channels (the documented correction CANCELED -> DONE aside).  The
+    # client facade hides a second, contradicting final state from the
+    # application, the other components of a pilot see it.
+    pubs = dict()
+    for ev in mp.net.events('pub'):
+        if not ev['url'].endswith('/' + rpc.STATE_PUBSUB):
+            continue
+        for thing in ru.as_list((ev['payload'] or {}).get('arg')):
+            if isinstance(thing, dict) and thing.get('type') == 'task' and \
+                    thing.get('state') in FINAL_STATES:
+                pubs.setdefault(thing['uid'], list()).append(thing['state'])
+    for uid, states in pubs.items():
+        res.count('final_publications_checked')
+        kinds = list(dict.fromkeys(states))
+        if len(kinds) > 1 and kinds != [rps.CANCELED, rps.DONE]:
+            viol('two-final-states-published', '%s was published as %s'
+                 % (uid, states))
+            break
 
     if ok1 is None:
         res.inconc('first wave still busy at the hard wall-clock limit')
